@@ -413,6 +413,15 @@ class Interp:
 
     # -- conversions ----------------------------------------------------------------------------------------------------
     def to_jv(self, v):
+        self._jv_depth = getattr(self, "_jv_depth", 0) + 1
+        try:
+            if self._jv_depth > 60:
+                raise CyclicValue("value nested deeper than 60 levels (a structure that contains itself)")
+            return self._to_jv(v)
+        finally:
+            self._jv_depth -= 1
+
+    def _to_jv(self, v):
         Z = self.Z
         if isinstance(v, SV):
             return v.t
@@ -622,6 +631,8 @@ class Interp:
                 raise Unsupported(f"truthiness of {v.cls.__name__}")
             return True
         if isinstance(v, (SFunc, SOpaque)):
+            if isinstance(v, SOpaque) and getattr(v, "nonempty", None) is not None:
+                return v.nonempty
             if isinstance(v, SOpaque) and v.cls in (list, dict, set, str):
                 raise Unsupported(f"truthiness of opaque {v.name}")
             return True
@@ -649,6 +660,15 @@ class Interp:
     # -- equality -------------------------------------------------------------------------------------------------------
     def py_eq(self, a, b):
         """python == as python bool or z3 Bool"""
+        self._eq_depth = getattr(self, "_eq_depth", 0) + 1
+        try:
+            if self._eq_depth > 60:
+                raise CyclicValue("comparison nested deeper than 60 levels (a structure that contains itself)")
+            return self._py_eq(a, b)
+        finally:
+            self._eq_depth -= 1
+
+    def _py_eq(self, a, b):
         Z = self.Z
         if isinstance(a, SV) and isinstance(b, SV):
             # structural equality, plus numeric cross-type equality, minus NaN reflexivity
@@ -1801,6 +1821,10 @@ class Interp:
         import enum as _enum
         if isinstance(obj, _enum.Enum):
             return getattr(obj, name)
+        pytype = {SStr: str, SInt: int, SFloat: float, SBool: bool, SList: list, STuple: tuple, SDict: dict, SSet: set,
+                  SSeq: list}.get(type(obj))
+        if pytype is not None and not hasattr(pytype, name):
+            self.raise_(AttributeError, f"'{pytype.__name__}' object has no attribute '{name}'")
         if isinstance(obj, (SStr, str, SList, SDict, SSet, STuple, SInt, SFloat, SBool, _Tagged, SSeq)):
             return SFunc("method", name, self_val=obj, name=name)
         if obj is None:
@@ -1826,6 +1850,10 @@ class Interp:
             return getattr(obj, name)
         if isinstance(obj, (int, float, bool, tuple, frozenset, set, list, dict)):
             return SFunc("method", name, self_val=obj, name=name)
+        if _is_singleton(obj):
+            if not hasattr(obj, name):
+                self.raise_(AttributeError, f"'{type(obj).__name__}' object has no attribute '{name}'")
+            return getattr(obj, name)
         raise Unsupported(f"attribute {name} of {type(obj).__name__}")
 
     def e_Subscript(self, node, fr):
@@ -2001,8 +2029,21 @@ class Interp:
             return self.call_pyfunc(f, args, kwargs)
         if isinstance(f, type):
             return self.construct(f, args, kwargs)
-        if isinstance(f, SObj) or isinstance(f, SOpaque):
-            raise Unsupported("calling an object")
+        if isinstance(f, (SV, SStr, SInt, SBool, SFloat, SList, SDict, SSet, SSeq, _Tagged)) or f is None or \
+                isinstance(f, (str, int, float, bool)) or _is_singleton(f):
+            if isinstance(f, SV):
+                f = self.view(f)
+                if isinstance(f, SObj) or isinstance(f, _Tagged) and f.tag == "obj":
+                    raise Unsupported("calling an opaque object")
+            self.raise_(TypeError, "object is not callable")
+        if type(f).__name__ in ("member_descriptor", "getset_descriptor"):
+            self.raise_(TypeError, "'member_descriptor' object is not callable")
+        if isinstance(f, SObj):
+            if any("__call__" in c.__dict__ for c in f.cls.__mro__ if c not in (object, type)) and not issubclass(f.cls, (str, int)):
+                raise Unsupported("calling an object with __call__")
+            self.raise_(TypeError, f"'{f.cls.__name__}' object is not callable")
+        if isinstance(f, SOpaque):
+            raise Unsupported("calling an opaque object")
         raise Unsupported(f"call of {f!r}")
 
     def call_pyfunc(self, fn, args, kwargs):
@@ -2077,6 +2118,10 @@ class Interp:
 
 class LoopInvariantFailure(Exception):
     pass
+
+
+class CyclicValue(Exception):
+    """a python-side structure contains itself (e.g. a dict stored into itself): it equals no finite JSON value"""
 
 
 class LoopSpec:
